@@ -290,3 +290,85 @@ def _offset_paths(lp: ast.For, name: str) -> tp.Tuple[tp.Optional[bool], str]:
             # inner loops: their continue belongs to them
     scan(lp.body[:last], False, [])
     return (not bad), ' and '.join(bad)
+
+
+def layout_independent_casts(ctx: Ctx) -> None:
+    R = 'I.layout-independent-cast'
+    ctx.rule(R, 'block layout is unobservable: a per-block cast (`b.astype(D)` on the loop\'s block, possibly on a slice of it) that is guarded by a test on the '
+             'block\'s layout (`b.ndim`, `b.shape`) has a sibling cast to the same dtype on the complementary layout branch; a cast applied to 2-D blocks only '
+             '(or 1-D only) makes values depend on how the columns happen to be partitioned', floor=10)
+    from sfa.rules.frozen import _enclosing_tests
+    prog = ctx.prog
+    n = 0
+    for f in prog.all_funcs():
+        if isinstance(f.node, ast.Lambda) or f.module.short not in ('type_blocks', 'frame', 'series', 'util', 'container_util', 'quilt'):
+            continue
+        for lp in walk_local(f.node):
+            if not isinstance(lp, ast.For):
+                continue
+            tn = {x.id for x in ast.walk(lp.target) if isinstance(x, ast.Name)}
+            # layout aliases: ndim = sel.ndim and the like
+            lay_names = {a.targets[0].id for a in ast.walk(lp) if isinstance(a, ast.Assign) and isinstance(a.targets[0], ast.Name) and isinstance(a.value, ast.Attribute)
+                         and a.value.attr in ('ndim', 'shape')}
+
+            def is_layout(t: ast.expr) -> bool:
+                return any((isinstance(x, ast.Attribute) and x.attr in ('ndim', 'shape') and isinstance(x.value, ast.Name) and x.value.id in tn) or
+                           (isinstance(x, ast.Name) and x.id in lay_names) for x in ast.walk(t))
+            casts = [c for c in ast.walk(lp) if isinstance(c, ast.Call) and isinstance(c.func, ast.Attribute) and c.func.attr == 'astype' and c.args
+                     and any(isinstance(x, ast.Name) and x.id in tn for x in ast.walk(c.func.value))]
+            # only the innermost loop owning the block variable
+            casts = [c for c in casts if not any(isinstance(x, ast.For) and x is not lp and any(y is c for y in ast.walk(x)) and
+                                                 ({z.id for z in ast.walk(x.target) if isinstance(z, ast.Name)} & {z.id for z in ast.walk(c.func.value) if isinstance(z, ast.Name)})
+                                                 for x in ast.walk(lp))]
+            def restricts(i: ast.If, pol: bool) -> bool:
+                # does reaching this branch imply a particular layout?  true branch of a conjunction with a layout conjunct (or of a bare layout
+                # test); false branch of a bare layout test or of a disjunction with a layout disjunct
+                t = i.test
+                if isinstance(t, ast.BoolOp):
+                    has = any(is_layout(v) and not isinstance(v, ast.BoolOp) for v in t.values)
+                    return has and ((isinstance(t.op, ast.And) and pol) or (isinstance(t.op, ast.Or) and not pol))
+                return is_layout(t)
+            for c in casts:
+                n += 1
+                key = f'{f.name}:astype({norm(c.args[0])[:30]})@{norm(c.func.value)[:30]}'
+                guards = [(i, pol) for i, pol in _enclosing_ifs(lp, c) if is_layout(i.test) and restricts(i, pol)]
+                if not guards:
+                    ctx.ok(R, f, c, 'cast does not depend on block layout', key=key)
+                    continue
+                gids = {id(i) for i, _p in guards}
+                siblings = [x for x in casts if x is not c and not ({id(i) for i, p in _enclosing_ifs(lp, x) if restricts(i, p) and (id(i), p) in {(id(a), b) for a, b in guards}})]
+                if siblings:
+                    ctx.ok(R, f, c, f'cast under `{norm(guards[-1][0].test)[:40]}`; the other layout casts at line {siblings[0].lineno}', key=key)
+                else:
+                    i, pol = guards[-1]
+                    ctx.bad(R, f, c, f'`{norm(c)[:50]}` is applied only under `{norm(i.test)[:60]}` ({"true" if pol else "false"} branch) and no cast exists for blocks of the other '
+                            'layout: the result depends on whether a column sits in a 1-D or a 2-D block', key=key)
+    ctx.require(n >= 10, 'per-block casts')
+
+
+def _enclosing_ifs(root: ast.AST, target: ast.AST) -> tp.List[tp.Tuple[ast.If, bool]]:
+    '''[(If node, True if target is in its body / False if in its orelse)], outermost first.'''
+    out: tp.List[tp.Tuple[ast.If, bool]] = []
+
+    def rec(node: ast.AST) -> bool:
+        if node is target:
+            return True
+        if isinstance(node, ast.If):
+            if any(x is target for x in ast.walk(node.test)):
+                out.append((node, True))      # part of the test itself: treat as guarded by it
+                return True
+            for s in node.body:
+                if rec(s):
+                    out.insert(0, (node, True))
+                    return True
+            for s in node.orelse:
+                if rec(s):
+                    out.insert(0, (node, False))
+                    return True
+            return False
+        for ch in ast.iter_child_nodes(node):
+            if rec(ch):
+                return True
+        return False
+    rec(root)
+    return out
